@@ -36,6 +36,7 @@ mod c13;
 mod tables_prec;
 mod tables_lower;
 mod e2e;
+mod e2ef;
 mod jsontext;
 mod f64cases;
 
@@ -121,6 +122,7 @@ fn main() {
                 "C14" => c14::run(&params),
                 "C13" => c13::run(&params),
                 "E2E" => e2e::run(&params),
+                "E2EF" => e2ef::run(&params),
                 _ => { eprintln!("unknown property {}", id); std::process::exit(2); }
             };
             // the witnesses of this property run as part of every check (regression corpus)
